@@ -101,7 +101,7 @@ DEF_LIB(Narrow, char, int, str, mem, "char")
 DEF_LIB(Wide, wchar_t, wchar_t, wcs, wmem, "wchar_t")
 
 // ---------------------------------------------------------------- case
-#define FNS(X) X(len) X(cmp) X(ncmp) X(cpy) X(ncpy) X(cat) X(ncat) X(chr) X(rchr) X(spn) X(cspn) X(pbrk) X(str) X(mcpy) X(mmove) X(mset) X(mcmp) X(mchr)
+#define FNS(X) X(len) X(cmp) X(ncmp) X(cpy) X(ncpy) X(cat) X(ncat) X(chr) X(rchr) X(spn) X(cspn) X(pbrk) X(str) X(mcpy) X(mmove) X(mset) X(mcmp) X(mchr) X(mcpy1) X(cpy1)
 enum Fn : int {
 #define X(F) F_##F,
     FNS(X)
@@ -113,10 +113,12 @@ char const* const fn_names[] = {
     FNS(X)
 #undef X
 };
-auto is_mem(int fn) -> bool { return fn >= F_mcpy; }
+auto is_mem(int fn) -> bool { return fn >= F_mcpy && fn != F_cpy1; }
 auto real_name(bool wide, int fn) -> std::string
 {
     std::string const base = fn_names[fn];
+    if (fn == F_mcpy1) { return std::string(wide ? "wmemcpy" : "memcpy") + " (source and destination in one block)"; }
+    if (fn == F_cpy1) { return std::string(wide ? "wcscpy" : "strcpy") + " (source and destination adjacent in one block)"; }
     if (is_mem(fn)) { return std::string(wide ? "wmem" : "mem") + base.substr(1); }
     return std::string(wide ? "wcs" : "str") + base;
 }
@@ -361,6 +363,33 @@ auto run_call(Bufs<typename L::Char> const& B, Case const& k) -> std::string
         if (e1 != c || e2 != c) { return name + ": etl ptr" + offs(e1) + " (const overload) ptr" + offs(e2) + " (non-const overload), libc ptr" + offs(c); }
         return {};
     }
+    case F_mcpy1: {
+        // one block; source [x, x+n), destination [y, y+n), disjoint (they may touch): C defines the copy
+        auto const total = std::max(k.x, k.y) + n;
+        Exact<Char> be{total}, bc{total};
+        for (std::size_t i = 0; i < total; ++i) { be.p[i] = bc.p[i] = la == 0 ? static_cast<Char>(i + 1) : static_cast<Char>(k.a[i % la]); }
+        void const* re = L::e_mcpy(be.p + k.y, static_cast<Char const*>(be.p + k.x), n);
+        void const* rc = L::c_mcpy(bc.p + k.y, static_cast<Char const*>(bc.p + k.x), n);
+        if (auto d = ret_dest(re, be.p + k.y, rc, bc.p + k.y); !d.empty()) { return d; }
+        if (!same(be, bc)) { return name + ": block after the copy etl " + dump(be.p, be.n) + " libc " + dump(bc.p, bc.n); }
+        return {};
+    }
+    case F_cpy1: {
+        // one block of 2 * (la + 1) elements: x == 0: string a, then the destination right behind its terminator; x == 1: the
+        // destination first, string a right behind it
+        auto const len = la + 1;
+        Exact<Char> be{2 * len}, bc{2 * len};
+        pattern(be.p, be.n);
+        pattern(bc.p, bc.n);
+        auto const so = k.x == 0 ? 0 : len;
+        auto const dx = k.x == 0 ? len : 0;
+        for (std::size_t i = 0; i < len; ++i) { be.p[so + i] = bc.p[so + i] = az[i]; }
+        void const* re = L::e_cpy(be.p + dx, static_cast<Char const*>(be.p + so));
+        void const* rc = L::c_cpy(bc.p + dx, static_cast<Char const*>(bc.p + so));
+        if (auto d = ret_dest(re, be.p + dx, rc, bc.p + dx); !d.empty()) { return d; }
+        if (!same(be, bc)) { return name + ": block after the copy etl " + dump(be.p, be.n) + " libc " + dump(bc.p, bc.n); }
+        return {};
+    }
     default: return "harness: unknown function id";
     }
 }
@@ -368,18 +397,18 @@ auto run_call(Bufs<typename L::Char> const& B, Case const& k) -> std::string
 // ---------------------------------------------------------------- statistics (batched)
 struct Tally {
     std::uint64_t evals[3]{};
-    std::uint64_t cls[10]{};
+    std::uint64_t cls[11]{};
     std::uint64_t strcalls{0}, memcalls{0};
 } g_t;
 char const* const sub_names[] = {"str", "mem", "memmove"};
-char const* const cls_names[] = {"str: both strings non-empty", "str: different lengths", "str: character >= 0x80 involved", "str: count in {0, len, > len}", "mem: embedded zero element", "mem: overlapping move", "str: count > PTRDIFF_MAX (the 'no limit' idiom)", "character argument outside [CHAR_MIN, UCHAR_MAX] (narrow)", "source or destination not 8-byte aligned", "mem: count >= 16"};
+char const* const cls_names[] = {"str: both strings non-empty", "str: different lengths", "str: character >= 0x80 involved", "str: count in {0, len, > len}", "mem: embedded zero element", "mem: overlapping move", "str: count > PTRDIFF_MAX (the 'no limit' idiom)", "character argument outside [CHAR_MIN, UCHAR_MAX] (narrow)", "source or destination not 8-byte aligned", "mem: count >= 16", "mem: source and destination touch (memcpy in one block)"};
 void flush_tally()
 {
     for (int i = 0; i < 3; ++i) {
         if (g_t.evals[i]) { vf::eval(sub_names[i], g_t.evals[i]); }
         g_t.evals[i] = 0;
     }
-    for (int i = 0; i < 10; ++i) {
+    for (int i = 0; i < 11; ++i) {
         auto& c = vf::stats().classes[cls_names[i]];
         c.first += g_t.cls[i];
         c.second += (i < 4 || i == 6) ? g_t.strcalls : ((i == 7 || i == 8) ? g_t.strcalls + g_t.memcalls : g_t.memcalls);
@@ -437,7 +466,9 @@ auto one(Bufs<typename L::Char> const& B, Case const& k, bool random) -> bool
         g_t.cls[4] += zero;
         g_t.cls[5] += overlap;
         g_t.cls[9] += k.n >= 16;
-        nt = k.n > 0 && (zero || high || overlap || wild_ch || misal);
+        bool const touch = k.fn == F_mcpy1 && (k.x > k.y ? k.x - k.y : k.y - k.x) == k.n;
+        g_t.cls[10] += touch;
+        nt = k.n > 0 && (zero || high || overlap || wild_ch || misal || touch);
     }
     if (nt) {
         if (random) {
@@ -492,6 +523,20 @@ auto ch_set() -> std::vector<long>
     }
 }
 
+template <typename L>
+auto present(std::vector<std::uint32_t> const& a, long ch) -> bool
+{
+    using Char = typename L::Char;
+    for (auto u : a) {
+        if constexpr (sizeof(Char) == 1) {
+            if (static_cast<unsigned char>(static_cast<Char>(u)) == static_cast<unsigned char>(ch)) { return true; }
+        } else {
+            if (static_cast<Char>(u) == static_cast<Char>(ch)) { return true; }
+        }
+    }
+    return false;
+}
+
 // every call of function fn for the pair in k (arguments enumerated completely); single-string functions run for bi == 0 only
 template <typename L, typename F>
 void for_calls(Case& k, bool a_is_cstr, bool b_is_cstr, bool first_b, F f)
@@ -532,6 +577,15 @@ void for_calls(Case& k, bool a_is_cstr, bool b_is_cstr, bool first_b, F f)
     }
     for (std::size_t n = 0; n <= std::min(la, lb); ++n) { call(F_mcmp, n, 0, 0, 0); }
     if (first_b) {
+        // memchr reads sequentially and stops at the first match: any count is defined when the character is present
+        for (auto ch : ch_set<L>()) {
+            if (!present<L>(k.a, ch)) { continue; }
+            for (auto n : huge_counts()) { call(F_mchr, n / sizeof(typename L::Char), ch, 0, 0); }
+        }
+        if (a_is_cstr) {
+            call(F_cpy1, 0, 0, 0, 0);
+            call(F_cpy1, 0, 0, 1, 0);
+        }
         for (std::size_t n = 0; n <= la; ++n) {
             for (auto ch : ch_set<L>()) { call(F_mchr, n, ch, 0, 0); }
             for (std::size_t slack : {0U, 3U}) { call(F_mcpy, n, 0, slack, 0); }
@@ -670,6 +724,23 @@ void enumerate(vf::Ctx& c, std::vector<std::uint32_t> const& alpha, std::size_t 
         }
     }
     k.a.clear();
+    // memcpy inside one block: every (source offset, destination offset, count) with disjoint ranges, including ranges that
+    // touch (|x - y| == n) and n == 0 with x == y
+    for (std::size_t n = 0; n <= 9; ++n) {
+        if (!c.mine(work++)) { continue; }
+        for (std::size_t x = 0; x <= 18; ++x) {
+            for (std::size_t y = 0; y <= 18; ++y) {
+                if ((x > y ? x - y : y - x) < n) { continue; }
+                k.fn = F_mcpy1;
+                k.n  = n;
+                k.ch = 0;
+                k.x  = x;
+                k.y  = y;
+                if (!one<L>(B, k, false) && !c.memory_only) { return; }
+            }
+        }
+    }
+    k.x = k.y = 0;
     flush_tally();
 }
 
@@ -762,6 +833,17 @@ void random_strings(vf::Ctx& c, std::size_t pairs)
         }
         call(F_mcmp, r.below(2) ? std::min(la, lb) : r.below(std::min(la, lb) + 1), 0, 0, 0);
         call(F_mchr, r.below(2) ? la : r.below(la + 1), rch(), 0, 0);
+        if (la > 0) {
+            auto const present_ch = static_cast<long>(static_cast<Char>(k.a[r.below(la)]));
+            call(F_mchr, huge_counts()[r.below(huge_counts().size())] / sizeof(Char), present_ch, 0, 0);
+        }
+        if (az) { call(F_cpy1, 0, 0, r.below(2), 0); }
+        {
+            auto const n = r.below(40);
+            auto const x = n + r.below(24);
+            auto const y = r.below(2) ? x + n + r.below(3) : x - n - (x - n > 0 ? r.below(2) : 0);
+            call(F_mcpy1, n, 0, x, y);
+        }
         call(F_mcpy, r.below(2) ? la : r.below(la + 1), 0, slack(), mis());
         call(F_mset, r.below(r.below(4) == 0 ? 200 : 41), rch(), slack(), mis());
         {
